@@ -1560,12 +1560,16 @@ pub fn run_limits(seed: u64, params: &Params, out: &mut ScnOut) {
         active_timeout_ms: *rng.pick(&[4000u64, 8000]),
     };
     let errors_on = rng.chance(0.5);
-    let scfg = uflow::server::Config { max_total_connections: max_total, max_active_connections: max_active, enable_handshake_errors: errors_on, endpoint_config: mk(&mut rng) };
+    let mut sep = mk(&mut rng);
+    sep.max_send_rate = *rng.pick(&[20_000usize, 100_000, 2_000_000]);
+    let scfg = uflow::server::Config { max_total_connections: max_total, max_active_connections: max_active, enable_handshake_errors: errors_on, endpoint_config: sep };
     w.bind_server(scfg, (10 * MS, 10 * MS));
     // arrival schedule: burst, staggered, or waves
     let arrive: Vec<u64> = (0..n_clients)
         .map(|k| match pattern {
-            0 | 2 => rng.below(50) * MS,
+            0 => rng.below(50) * MS,
+            // a first wave fills the server, the rest keep arriving while connections end
+            2 => if k % 2 == 0 { rng.below(50) * MS } else { rng.range(2000, 27_000) * MS },
             _ => (k as u64) * rng.range(0, 400) * MS,
         })
         .collect();
@@ -1608,7 +1612,16 @@ pub fn run_limits(seed: u64, params: &Params, out: &mut ScnOut) {
                     }
                     _ => {
                         let a = w.clients[i].addr;
-                        w.server_disconnect(a, rng.chance(0.5));
+                        let now = rng.chance(0.4);
+                        if !now {
+                            // a graceful disconnect with a send queue that takes a while to flush:
+                            // the connection stays established meanwhile
+                            for _ in 0..rng.range(0, 30) {
+                                w.server_send(a, rng.range(1000, 10_000) as usize, 0, 3);
+                            }
+                            w.c.inc("c17_graceful_disconnects_with_queued_data");
+                        }
+                        w.server_disconnect(a, now);
                     }
                 }
                 w.c.inc("c17_connections_ended_by_script");
@@ -1773,6 +1786,33 @@ pub fn run_amplify(seed: u64, params: &Params, out: &mut ScnOut) {
             plan.push((t, a, bytes, label));
         }
     }
+    // flooders: a valid SYN followed by hundreds of small frames of one type (each reply the
+    // server might be tempted to send is larger than the 5..25-byte frame that provoked it)
+    for a in 0..n_addr {
+        if !rng.chance(0.3) {
+            continue;
+        }
+        only_undersized[a] = false;
+        let t0 = rng.range(0, 5000) * MS;
+        let nonce = rng.u32();
+        plan.push((t0, a, encode(&RFrame::Syn { version: 3, nonce, max_receive_rate: 1_000_000, max_packet_size: 1000, max_receive_alloc: 1_000_000 }), "valid-syn-fresh-nonce"));
+        let kind = rng.below(7);
+        let n = rng.range(50, 400);
+        let gap = rng.range(5, 60) * MS;
+        for k in 0..n {
+            let f = match kind {
+                0 => RFrame::Ack { nonce_ack: rng.u32() },
+                1 => RFrame::Disconnect,
+                2 => RFrame::DisconnectAck,
+                3 => RFrame::Sync { next_frame_id: None, next_packet_id: None },
+                4 => RFrame::Acks { frame_window_base_id: rng.u32(), packet_window_base_id: rng.u32() & PID_MASK, groups: vec![] },
+                5 => RFrame::Error { nonce_ack: rng.u32(), error: rng.below(3) as u8 },
+                _ => RFrame::Data { sequence_id: rng.u32(), nonce: false, datagrams: vec![] },
+            };
+            plan.push((t0 + (k + 1) * gap, a, encode(&f), "stray-frame"));
+        }
+        w.c.inc("amp_flooder_addresses");
+    }
     plan.sort_by_key(|p| p.0);
     let addr_of = |a: usize| client_addr(300 + a);
     for a in 0..n_addr {
@@ -1835,7 +1875,7 @@ pub fn run_amplify(seed: u64, params: &Params, out: &mut ScnOut) {
 // C03 at endpoint level: hostile connected peers and spoofed strangers
 
 fn snapshot_of(hc: &uflow::verif::HalfConnection) -> crate::hostile::Snapshot {
-    crate::hostile::Snapshot { rx_frame_base: hc.verif_rx_frame_base_id(), rx_packet_base: hc.verif_rx_packet_base_id(), tx_frame: hc.verif_tx_frame_ids(), tx_packet: hc.verif_tx_packet_ids(), window: 4096 }
+    crate::hostile::Snapshot { rx_frame_base: hc.verif_rx_frame_base_id(), rx_packet_base: hc.verif_rx_packet_base_id(), tx_frame: hc.verif_tx_frame_ids(), tx_packet: hc.verif_tx_packet_ids(), window: 4096, log_base: hc.verif_tx_frame_ids().1.wrapping_sub(hc.verif_frame_log_len() as u32) }
 }
 
 pub fn run_ep_hostile(seed: u64, params: &Params, out: &mut ScnOut) {
